@@ -6,24 +6,27 @@ import itertools
 
 from ..harness import stub_repo_calls
 from ..index import AnalysisError
-from ..kernel import clean
+from ..kernel import clean, metric_stub
 from ..ndarr import NdArr, field_atom, strip_pad
 from ..poly import Rat
 from ..scene import SP, Scene, vec
 from ..values import Builtin, Obj, Raised, SymBool, to_rat
 
-LEVEL = "proof"
+LEVEL = "other"
 EXPLANATION = (
-    "Proves, as polynomial identities over the reals, that backward(forward(state)) == state for E and H: the "
-    "repo's forward() and backward() are composed by the abstract interpreter on symbolic fields, materials, "
-    "conductivities, step counter and abstract sources, and the result is compared with the initial fields "
-    "(wall cells: with the wall projection of the initial field, i.e. equality for every state satisfying the "
-    "wall conditions).  Covered paths: isotropic / diagonal tiers x {lossless, electric loss, magnetic loss, "
-    "both}, fully anisotropic lossless permittivity and permeability (uniform grid), zero / periodic halos, "
-    "PEC and PMC walls on every axis, always-on and scheduled sources.  Sources are abstract here (inject "
-    "sign*J(time argument)); that every public source class has this form is decided per class "
-    "(additive, field-independent injection whose only dependence on `inverse` is the sign).  Round-off, "
-    "dispersive media and absorbing layers are outside the property."
+    "Decides, as polynomial identities over the reals, that backward(forward(state)) == state for E and H "
+    "and that the step counter returns: the repo's forward() and backward() are composed by the abstract "
+    "interpreter on symbolic fields, materials, conductivities, step counter and abstract sources, and the "
+    "result is compared with the initial fields (with walls: with the wall projection of the initial field, "
+    "i.e. for every state satisfying the wall conditions).  Paths covered: isotropic / diagonal tiers x "
+    "{lossless, electric loss, magnetic loss, both}, scalar permeability, fully anisotropic lossless "
+    "permittivity and / or permeability, zero / periodic halos, Bloch phases per axis on complex fields, "
+    "PEC and PMC walls on every axis, non-uniform metric scales, always-on and scheduled sources.  Sources "
+    "are abstract in that composition (F + sign*J(time argument), switch and on/off time map opaque); that "
+    "every exported source class has exactly this form is decided per class by a def-use rule on the "
+    "syntax tree: additive .at[].add injection, one inverse-controlled sign factor, magnitude and region "
+    "independent of the field and of `inverse`.  Not decided: round-off, the temporal profile values, "
+    "dispersive media and absorbing layers (outside the property), lossy full tensors (outside)."
 )
 
 
@@ -65,15 +68,18 @@ class Src:
         )
 
 
-def _roundtrip(ctx, label, arrays_kw, boundaries=(), with_sources=True, sym=(0, 0, 0)):
+def _roundtrip(ctx, label, arrays_kw, boundaries=(), with_sources=True, sym=(0, 0, 0), nonuniform=False, bkw=None):
     ix = ctx.index
     it = ctx.fresh_interp()
     sc = Scene(ix, it)
     it.ext_handlers["np.linalg.solve"] = _solve
-    bs = [sc.boundary(q, a, d) for (q, a, d) in boundaries]
+    if nonuniform:
+        metric_stub(it)  # one distinct scale atom per (axis, stencil); its value is C01's rule R1.3
+    grid = Obj(None, {"min_spacing": Rat.atom("res")}, "grid") if nonuniform else None
+    cfg = sc.config(symmetry=sym, has_nonuniform_grid=nonuniform, resolved_grid=grid)
+    bs = [sc.boundary(q, a, d, **(dict(bkw, _config=cfg) if bkw else {})) for (q, a, d) in boundaries]
     srcs = [Src(ix, "s_default", True).obj, Src(ix, "s_sched", False).obj] if with_sources else []
     objs = sc.objects(bs + srcs)
-    cfg = sc.config(symmetry=sym)
     arrays = sc.arrays(**arrays_kw)
     if bs:
         # the property quantifies over states that satisfy the wall conditions: project the
@@ -135,6 +141,10 @@ PMC = "fdtdx.objects.boundaries.pmc.PerfectMagneticConductor"
 BLO = "fdtdx.objects.boundaries.bloch.BlochBoundary"
 
 
+def _k():
+    return (Rat.atom("k0"), Rat.atom("k1"), Rat.atom("k2"))
+
+
 def run(ctx):
     # material tiers x loss
     for comps, se, sh in itertools.product((1, 3), (False, True), (False, True)):
@@ -143,23 +153,43 @@ def run(ctx):
         _roundtrip(ctx, f"roundtrip:{tag}", kw)
     # scalar (non-magnetic) permeability
     _roundtrip(ctx, "roundtrip:scalar-mu", dict(eps_comps=3, mu_comps=0))
-    # walls on every axis
+    # walls on every axis, with the loss on the same and on the other half step
     for axis in range(3):
         _roundtrip(ctx, f"roundtrip:pec-pmc:axis{axis}", dict(eps_comps=3, mu_comps=3, sigma_e=3), boundaries=[(PEC, axis, "-"), (PMC, axis, "+")])
-    # periodic halos (no phase)
+        _roundtrip(ctx, f"roundtrip:pmc-pec:sigmaH:axis{axis}", dict(eps_comps=1, mu_comps=1, sigma_h=1), boundaries=[(PMC, axis, "-"), (PEC, axis, "+")])
+    _roundtrip(ctx, "roundtrip:walls-all-axes", dict(eps_comps=3, mu_comps=3), boundaries=[(PEC, a, "-") for a in range(3)] + [(PMC, a, "+") for a in range(3)])
+    # periodic halos (no phase) on all axes; Bloch phase exp(+-ikL) per axis, complex fields
     _roundtrip(ctx, "roundtrip:periodic", dict(eps_comps=1, mu_comps=1), boundaries=[(BLO, a, d) for a in range(3) for d in "-+"])
+    for axis in range(3):
+        _roundtrip(ctx, f"roundtrip:bloch:axis{axis}", dict(eps_comps=3, mu_comps=3, sigma_e=3), boundaries=[(BLO, axis, d) for d in "-+"], bkw=dict(bloch_vector=_k(), needs_complex_fields=True))
+    # non-uniform grid: each derivative scaled by an opaque metric atom per (axis, stencil)
+    _roundtrip(ctx, "roundtrip:nonuniform:diag:sigmaEsigmaH", dict(eps_comps=3, mu_comps=3, sigma_e=3, sigma_h=3), nonuniform=True)
+    _roundtrip(ctx, "roundtrip:nonuniform:walls", dict(eps_comps=1, mu_comps=1), nonuniform=True, boundaries=[(PEC, 0, "-"), (PMC, 1, "+"), (PEC, 2, "+")])
+    _roundtrip(ctx, "roundtrip:nonuniform:periodic", dict(eps_comps=3, mu_comps=3), nonuniform=True, boundaries=[(BLO, a, d) for a in range(3) for d in "-+"])
     # fully anisotropic lossless tensors
     _roundtrip(ctx, "roundtrip:full-eps", dict(eps_comps=9, mu_comps=3))
     _roundtrip(ctx, "roundtrip:full-mu", dict(eps_comps=3, mu_comps=9))
     _roundtrip(ctx, "roundtrip:full-both", dict(eps_comps=9, mu_comps=9), with_sources=False)
     _source_classes(ctx)
-    ctx.require_count("C02", len(ctx.obligations), 40)
-    ctx.trusted_base.append("abstract source model sign*J(time argument), justified per public source class by R2.5")
+    ctx.require_count("C02", len(ctx.obligations), 90)
+    ctx.trusted_base.append("abstract source model F + sign*J(name, time argument); that every public source class has this form is rule R2.5 (syntax-tree dataflow, sa/srcflow.py)")
+    ctx.trusted_base.append("non-uniform scenarios use one opaque metric atom per (axis, stencil) (its value is C01 rule R1.3)")
+    ctx.assume("field state satisfies the wall conditions (the symbolic initial fields are projected with the repo's own wall hooks)")
+    ctx.assume("real arithmetic: the identities are exact over the rationals extended by the symbolic atoms; round-off is outside the property")
+
+
+def run_thorough(ctx):
+    """Heavier compositions: Bloch phases on two and three axes at once (several minutes)."""
+    kw = dict(bloch_vector=_k(), needs_complex_fields=True)
+    for axes in ((0, 1), (1, 2), (0, 2)):
+        _roundtrip(ctx, f"roundtrip:bloch:axes{axes[0]}{axes[1]}", dict(eps_comps=1, mu_comps=1), boundaries=[(BLO, a, d) for a in axes for d in "-+"], bkw=kw)
+    _roundtrip(ctx, "roundtrip:bloch:all-axes", dict(eps_comps=1, mu_comps=1), boundaries=[(BLO, a, d) for a in range(3) for d in "-+"], bkw=kw)
+    _roundtrip(ctx, "roundtrip:full-both:sources", dict(eps_comps=9, mu_comps=9))
 
 
 def _source_classes(ctx):
     """R2.5: every public Source class injects additively, independent of the field, and `inverse` only
-    flips the sign — decided by interpreting update_E / update_H with both values of `inverse`."""
+    flips the sign — decided by the def-use rule of sa/srcflow.py on update_E / update_H and their helpers."""
     from . import c10
 
     c10.source_linearity(ctx, rule="R2.5", for_c02=True)
